@@ -9,8 +9,8 @@ PROPS = {
     'C03': dict(verus=['u_small', 'u_bq', 'u_htok', 'u_hcr'], level='proof', technique=HTOK_T),
     'C04': dict(verus=['u_small', 'u_bq', 'u_htok', 'u_hcr', 'u_xtok', 'u_qname', 'u_utf8'], level='proof', technique=HTOK_T),
     'C07': dict(verus=['u_hser'], level='proof', technique='contract-based deductive verification (Verus) of the verbatim-extracted HtmlSerializer escaping / raw-text logic against a spec escape function with proved reversibility and confinement lemmas'),
-    'C08': dict(verus=['u_htok'], level='proof', technique=HTOK_T),
-    'C09': dict(verus=['u_htok', 'u_hcr'], level='proof', technique=HTOK_T),
+    'C08': dict(verus=['u_htok', 'u_tbtok'], level='proof', technique=HTOK_T),
+    'C09': dict(verus=['u_htok', 'u_hcr', 'u_tbtok'], level='proof', technique=HTOK_T),
     'C10': dict(verus=['u_utf8'], level='proof', technique='contract-based deductive verification (Verus) of the verbatim-extracted incremental UTF-8 decoder (utf8_decode.rs, Utf8LossyDecoder::process/finish) against a byte-level maximal-subpart specification of lossy decoding; chunking independence by a proved induction over the per-call contract'),
     'C11': dict(verus=['u_tendril'], level='proof', technique='contract-based deductive verification (Verus) of the verbatim-extracted Tendril operations that sit above the raw-pointer representation layer, against the byte string each tendril stands for, over an ASSUMED model of that layer'),
     'C13': dict(
